@@ -48,6 +48,21 @@ def check(run):
             else:
                 ops.append(dict(op=o, arg=run.rng.choice(dom)))
         plans.append(mkplan(mode, ops, ordered=(i % 2 == 0)))
+    # structured inputs to NewSorted (what an adaptive construction special-cases): an ordered head with a short tail, reversed,
+    # two runs, all equal, at sizes around the usual thresholds; then look-ups, an Add above the maximum and a Remove
+    for mode in ("asc", "desc", "key"):
+        for n in ((9, 18, 20, 40) if run.quick() else (9, 12, 13, 18, 20, 33, 40, 65, 130)):
+            base = [5 * (i + 1) for i in range(n)] if mode != "key" else [10 * (i + 1) + (i % 3) for i in range(n)]
+            if mode == "desc":
+                base = base[::-1]
+            top, mid, low = max(base) + 40, base[n // 3] + 2, min(base) - 3 if mode != "key" else 1
+            shp = [base, base[::-1], [base[0]] * n, base[: n // 2] + base[: n - n // 2]]
+            for tail in ([mid, top], [top, mid], [low, mid, top], [top], [mid], [top, top + 5, low]):
+                shp.append(base[: n - len(tail)] + tail)
+            for sh in shp:
+                ops = [dict(op="New", arg=0, vals=sh), dict(op="Index", arg=sh[-1]), dict(op="Contains", arg=sh[0]),
+                       dict(op="Add", arg=top + 100), dict(op="Remove", arg=sh[len(sh) // 2]), dict(op="Index", arg=top + 100)]
+                plans.append(mkplan(mode, ops, ordered=(mode == "asc" and n % 2 == 0)))
     # look-up, change, look-up again (anything a Sorted might remember between calls must be dropped by the change): every
     # triple over small contents (quick: a seeded sample)
     import itertools as _it
